@@ -235,7 +235,7 @@ func (w *world) afterRecv(c *xchain, in *intent, out *txOutcome) {
 	}
 	w.rec.SetNontrivial()
 	// C06: signer must be a relayer registered for the source chain
-	if !c.registry[in.signer.Acc.String()][p.SrcChain] {
+	if c.registry[in.signer.Acc.String()][p.SrcChain] == "" {
 		w.rec.Violate("C06", "unauthorised_recv", "signer_not_registered_for_chain", "receive from %s accepted from %s, who is not registered for that chain", p.SrcChain, in.signer.Label)
 	}
 	// C02: ground truth on the source chain at the proof height
@@ -282,7 +282,7 @@ func (w *world) afterRecv(c *xchain, in *intent, out *txOutcome) {
 	}
 	pk.ackBytes, pk.ackCode, pk.ackWritten = acks[0].Ack, a.Code, true
 	// C06: fee recipient recorded in the ack = counterparty address registered for (signer, source chain)
-	if want := w.relayerAddrOn(in.signer.Acc.String(), src); !strings.EqualFold(a.Relayer, want) {
+	if want := c.registry[in.signer.Acc.String()][src.Cfg.Name]; !strings.EqualFold(a.Relayer, want) {
 		w.rec.Violate("C06", "ack_relayer_field", "mismatch", "ack relayer %q, registered %q", a.Relayer, want)
 	}
 	w.wire = append(w.wire, &wireMsg{kind: "ack", from: c.idx, to: src.idx, packet: pk.bytes, ack: acks[0].Ack, height: c.CurHdr.Height, key: triple, dropped: map[int]bool{}})
@@ -345,10 +345,6 @@ func (w *world) isRelayer(addr string) bool {
 	return false
 }
 
-func (w *world) relayerAddrOn(addr string, other *xchain) string {
-	// set-up registers every relayer with the same key on every chain
-	return addr
-}
 
 // checkProofGround: the light client of chain c for chain src accepted proofHeight itself, and src's
 // committed store at that version holds `want` under `key`.
@@ -444,7 +440,7 @@ func (w *world) afterUpdate(c *xchain, in *intent, out *txOutcome) {
 		w.rec.Violate("C07", "forged_header_accepted", u.forged, "update of client %s on %s with a %s header accepted", of.Cfg.Name, c.Cfg.Name, u.forged)
 		return
 	}
-	if !c.registry[in.signer.Acc.String()][of.Cfg.Name] {
+	if c.registry[in.signer.Acc.String()][of.Cfg.Name] == "" {
 		w.rec.Violate("C06", "unauthorised_update", "signer_not_registered_for_chain", "update of client %s accepted from %s, who is not registered for that chain", of.Cfg.Name, in.signer.Label)
 	}
 	if c.accepted[of.idx] == nil {
